@@ -10,6 +10,7 @@ use crate::{
     scanner::{ParseError, ParseResult, Scanner},
     smallmap::SmallMap,
 };
+use std::borrow::Cow;
 use std::path::Path;
 
 /// A list of variable bindings, as expressed with syntax like:
@@ -69,7 +70,18 @@ impl<'text> Parser<'text> {
     pub fn inherit<'b>(&mut self, from: &'b Self) {
         // TODO: should use from parser as a scope rather than copying.
         for (k, v) in from.vars.get_all() {
-            self.vars.insert(k, v.clone());
+            match k {
+                Cow::Borrowed(k) => self.vars.insert(k, v.clone()),
+                Cow::Owned(k) => self.vars.insert_owned(k.clone(), v.clone()),
+            }
+        }
+    }
+
+    /// Makes the file-level bindings of an included file visible in this
+    /// (the including) file's scope, as `include` requires.
+    pub fn extend_scope_from(&mut self, included: &Parser) {
+        for (k, v) in included.vars.get_all() {
+            self.vars.insert_owned(k.to_string(), v.clone());
         }
     }
 
